@@ -37,7 +37,11 @@ def sc_create(case, ctx):
             pixels[c["name"]] = {k: fr[k].values for k in fr.columns}
         else:
             pixels[c["name"]] = fr
-    cooler.create_scool(path, bins, pixels, ordered=True, symmetric_upper=symm)
+    if case.get("ordered", True):
+        cooler.create_scool(path, bins, pixels, ordered=True, symmetric_upper=symm)
+    else:
+        # the default of create_scool: every cell goes through unordered creation (temporary files, merge)
+        cooler.create_scool(path, bins, pixels, symmetric_upper=symm, mergebuf=case.get("mergebuf", 3), temp_dir=ctx.subdir())
     listed = [s[len("/cells/"):] if s.startswith("/cells/") else "?" + s for s in cooler.fileops.list_scool_cells(path)]
     out = []
     names = gen.CHROMNAMES
